@@ -13,9 +13,12 @@ package main
 //   //@   modifies Node.Forward, Node.Backward at r where cond
 //   //@   modifies var position, tokenIndex
 //   //@   overflow checked
-//   //@   loop 0 invariant expr
+//   //@   loop 0 invariant expr              (idx() = index of the enclosing range loop; cur() = cursor of a range over a
+//                                              list iterator: the element the next iteration will receive, nil at the end)
 //   //@   loop 0 decreases expr
 //   //@   ghost after "stmt" : lhs = rhs
+//   //@   ghost entry : lhs = rhs            (at function entry)
+//   //@   ghost return : lhs = rhs           (at every return, `result` bound, before the postconditions are checked)
 //   //@   ghost after "stmt" : use lemmaFn(args)   (ghost call of a verified lemma function: its requires become obligations
 //                                                   here, its ensures are assumed; nothing is modified)
 //   //@   lemmafunc                           (this function is a lemma: it must modify nothing, contain no calls, and every loop
@@ -479,8 +482,12 @@ func (fc *FuncContract) addClause(d *rawDirective, path string) error {
 		} else if strings.HasPrefix(text, "entry") {
 			g.At = "entry"
 			text = strings.TrimPrefix(strings.TrimSpace(text[5:]), ":")
+		} else if strings.HasPrefix(text, "return") {
+			// executed at every return, after the results are set and before the postconditions are checked; `result` is bound
+			g.At = "return"
+			text = strings.TrimPrefix(strings.TrimSpace(text[6:]), ":")
 		} else {
-			return fmt.Errorf("ghost after|entry")
+			return fmt.Errorf("ghost after|entry|return")
 		}
 		if t := strings.TrimSpace(text); strings.HasPrefix(t, "use ") {
 			e, err := parseExpr(t[4:])
@@ -545,15 +552,105 @@ func ContractFromClauses(key string, clauses ...string) (*FuncContract, error) {
 
 func parseExpr(s string) (ast.Expr, error) {
 	s = strings.TrimSpace(s)
-	// `a ==> b` is sugar for imp(a, b) at the top level of a clause (right associative, lowest precedence)
-	if k := topLevelIndex(s, "==>"); k >= 0 {
-		return parseExpr("imp(" + s[:k] + ", " + s[k+3:] + ")")
+	// `a ==> b` is sugar for imp(a, b): right associative, lowest precedence inside its parenthesis / argument position
+	if strings.Contains(s, "==>") {
+		s = desugarImp(s)
 	}
 	e, err := parser.ParseExpr(s)
 	if err != nil {
 		return nil, fmt.Errorf("cannot parse %q: %v", s, err)
 	}
 	return e, nil
+}
+
+// desugarImp rewrites every `a ==> b` into imp(a, b). An implication extends over the whole argument or parenthesised
+// expression it occurs in: forall(x, p ==> q && r) reads forall(x, imp(p, q && r)).
+func desugarImp(s string) string {
+	// split at top-level commas
+	var segs []string
+	depth, start, inStr := 0, 0, false
+	for i := 0; i < len(s); i++ {
+		c := s[i]
+		if inStr {
+			if c == '\\' {
+				i++
+			} else if c == '"' {
+				inStr = false
+			}
+			continue
+		}
+		switch c {
+		case '"':
+			inStr = true
+		case '(', '[', '{':
+			depth++
+		case ')', ']', '}':
+			depth--
+		case ',':
+			if depth == 0 {
+				segs = append(segs, s[start:i])
+				start = i + 1
+			}
+		}
+	}
+	segs = append(segs, s[start:])
+	for k, seg := range segs {
+		if j := topLevelIndex(seg, "==>"); j >= 0 {
+			segs[k] = " imp(" + desugarImp(seg[:j]) + ", " + desugarImp(seg[j+3:]) + ")"
+			continue
+		}
+		// descend into the parenthesised groups of the segment
+		var sb strings.Builder
+		depth, open := 0, -1
+		inStr = false
+		for i := 0; i < len(seg); i++ {
+			c := seg[i]
+			if inStr {
+				if c == '\\' {
+					if depth == 0 {
+						sb.WriteByte(c)
+					}
+					i++
+					if depth == 0 && i < len(seg) {
+						sb.WriteByte(seg[i])
+					}
+					continue
+				}
+				if c == '"' {
+					inStr = false
+				}
+				if depth == 0 {
+					sb.WriteByte(c)
+				}
+				continue
+			}
+			switch c {
+			case '"':
+				inStr = true
+				if depth == 0 {
+					sb.WriteByte(c)
+				}
+			case '(', '[', '{':
+				if depth == 0 {
+					sb.WriteByte(c)
+					open = i
+				}
+				depth++
+			case ')', ']', '}':
+				depth--
+				if depth == 0 {
+					sb.WriteString(desugarImp(seg[open+1 : i]))
+					sb.WriteByte(c)
+				}
+			default:
+				if depth == 0 {
+					sb.WriteByte(c)
+				}
+			}
+		}
+		segs[k] = sb.String()
+	}
+	return strings.Join(segs, ",")
 }
 
 func topLevelIndex(s, op string) int {
